@@ -1223,7 +1223,7 @@ func main() {
 	for i := 0; i < o.N(40, 10); i++ {
 		g.upgradeHistory(kBiomes, true)
 	}
-	for i := 0; i < o.N(30, 10); i++ {
+	for i := 0; i < o.N(20, 10); i++ {
 		g.upgradeHistory(kStates, false)
 	}
 	for i := 0; i < o.N(150, 10); i++ {
